@@ -36,7 +36,8 @@ GROUP_OF = {"covalent_radius": "covalent_radius", "covalent_radius_units": "cova
             "neutron": "neutron", "neutron_activation": "activation", "xray": "xray",
             "K_alpha": "emission", "K_beta1": "emission", "K_alpha_units": "emission",
             "K_beta1_units": "emission", "magnetic_ff": "magnetic_ff"}
-GROUPS = ["covalent_radius", "crystal_structure", "neutron", "activation", "xray", "emission", "magnetic_ff"]
+GROUPS = ["covalent_radius", "crystal_structure", "neutron", "activation", "xray", "emission", "magnetic_ff",
+          "mass_density"]      # the last one is not lazy; it is in the digest for the isolation property (C10)
 ROUTES = ["el+", "el-", "iso", "iso2", "ion", "isoion", "D", "n"]
 MODULES = ["nsf", "xsf", "covalent_radius", "crystal_structure", "magnetic_ff", "activation", "fasta",
            "formulas", "cromermann"]
@@ -169,6 +170,14 @@ def group_values(table, group):
             out.append([el.number, _get(el, "magnetic_ff")])
         for atom in (table.Fe.ion[2], table.Fe[56], table.D):
             out.append([repr(atom), _get(atom, "magnetic_ff")])
+    elif group == "mass_density":
+        for el in table:
+            out.append([el.number, _get(el, "mass"), _get(el, "density"), _get(el, "number_density"),
+                        _get(el, "interatomic_distance")])
+            for iso in el:
+                out.append([el.number, iso.isotope, _get(iso, "mass"), _get(iso, "abundance"), _get(iso, "density")])
+        for atom in (table.Fe.ion[2], table.Fe[56].ion[2], table.D.ion[1]):
+            out.append([repr(atom), _get(atom, "mass"), _get(atom, "density")])
     else:
         raise ValueError(group)
     return out
